@@ -314,6 +314,27 @@ def low_level_grids(ctx, probs, reps):
                         ctx.check(e <= tol, "G:samples are the flow at the requested times", lambda: {**wit(), "err": e})
                         ctx.check(np.array_equal(times, grid), "G:returned times are exactly the requested times", lambda: {**wit(), "times_head": times[:4]})
                     ctx.check(np.array_equal(states[0], y0), "C:first sample is the initial state (bitwise)", wit)
+                    # the returned solution object evaluated BETWEEN its nodes (its own documented interpolation: cubic Hermite when it
+                    # carries derivatives, linear otherwise): on either grid orientation within the linear-interpolation error of the interval
+                    if e <= tol and hasattr(sol, "interpolate") and len(grid) >= 3:
+                        kk = rng.integers(0, len(grid) - 1, 6)
+                        tq = grid[kk] + rng.uniform(0.2, 0.8, 6) * (grid[kk + 1] - grid[kk])
+                        tq = np.array(sorted(set(tq.tolist()), reverse=bool(grid[-1] < grid[0])))
+                        try:
+                            yi = np.asarray(sol.interpolate(tq), dtype=float)
+                        except Exception as exc:
+                            ctx.count("I:solution.interpolate declined (raised) — accepted")
+                            continue
+                        yq = _ref(fun, y0, np.concatenate([[grid[0]], tq]))[1:]
+                        fn = np.array([np.asarray(fun(t_, y_), dtype=float) for t_, y_ in zip(grid, yr)])
+                        hh = np.abs(np.diff(grid))
+                        S2 = float(np.max(np.abs(np.diff(fn, axis=0)).max(axis=1) / hh))
+                        bound = 1.5 * float(hh.max()) ** 2 / 8.0 * S2 + 10 * tol
+                        ei = float(np.abs(yi - yq).max()) if yi.shape == yq.shape else np.inf
+                        ctx.stat(f"interpolate_err/linear_bound[{'descending' if grid[-1] < grid[0] else 'ascending'}:{method}]", ei / bound)
+                        ctx.check(ei <= bound, "I:solution.interpolate(t) between the nodes == flow at t within the linear-interpolation error of the interval"
+                                  + (" [descending grid]" if grid[-1] < grid[0] else " [ascending grid]"),
+                                  lambda: {**wit(), "query_times": tq, "err": ei, "bound": bound})
 
 
 def system_propagate(ctx, probs, reps):
